@@ -185,22 +185,61 @@ struct Shared {
     dialects: HashMap<String, Arc<Dialect>>,
 }
 
+// ---- watchdog: a parse that does not come back is itself a difference (the baseline did)
+static WATCH: std::sync::Mutex<Option<HashMap<std::thread::ThreadId, (std::time::Instant, Value)>>> = std::sync::Mutex::new(None);
+fn watch_set(v: Value) {
+    if let Some(m) = WATCH.lock().unwrap().as_mut() {
+        m.insert(std::thread::current().id(), (std::time::Instant::now(), v));
+    }
+}
+fn watch_clear() {
+    if let Some(m) = WATCH.lock().unwrap().as_mut() {
+        m.remove(&std::thread::current().id());
+    }
+}
+fn watchdog(out_path: std::path::PathBuf, limit_s: u64) {
+    *WATCH.lock().unwrap() = Some(HashMap::new());
+    std::thread::spawn(move || {
+        loop {
+            std::thread::sleep(std::time::Duration::from_secs(2));
+            let stuck: Option<Value> = WATCH.lock().unwrap().as_ref().and_then(|m| m.values().find(|(t, _)| t.elapsed().as_secs() > limit_s).map(|(_, v)| v.clone()));
+            if let Some(v) = stuck {
+                use std::io::Write;
+                let key = format!("hang:{}:{}:{:016x}", v["variant"].as_str().unwrap_or("?"), v["dialect"].as_str().unwrap_or("?"), h64(v["sql"].as_str().unwrap_or("")));
+                let mut f = std::fs::OpenOptions::new().create(true).write(true).truncate(true).open(&out_path).unwrap();
+                let _ = writeln!(f, "{}", json!({"t":"direct_fail","cls":"watchdog","key":key,"msg":format!("parse did not finish within {} s (the harness stopped here; other inputs were not run)", limit_s),"input":v}));
+                let _ = writeln!(f, "{}", json!({"t":"counts","v":{},"direct_by_class":{"watchdog":1}}));
+                let _ = writeln!(f, "{}", json!({"t":"done","cases":0,"direct":1,"direct_fail":1}));
+                let _ = f.flush();
+                std::process::exit(0);
+            }
+        }
+    });
+}
+
+fn watched_parse(d: &Dialect, it: &Item, variant: &str) -> String {
+    watch_set(json!({"dialect": it.dialect, "sql": it.sql, "name": it.name, "variant": variant}));
+    let o = outcome(&parse_with(d, &it.sql));
+    watch_clear();
+    o
+}
+
 fn run_item(sh: &Shared, it: &Item, buf: &mut Buf) {
     let shared = &sh.dialects[&it.dialect];
     let input = json!({"dialect": it.dialect, "sql": it.sql, "name": it.name});
     verif_switches::set(false, false);
-    let base = outcome(&parse_with(shared, &it.sql));
+    let base = watched_parse(shared, it, "baseline");
     let mut variants: Vec<(&str, String)> = vec![];
     verif_switches::set(true, false);
-    variants.push(("cache-off", outcome(&parse_with(shared, &it.sql))));
+    variants.push(("cache-off", watched_parse(shared, it, "cache-off")));
     verif_switches::set(false, true);
-    variants.push(("prune-off", outcome(&parse_with(shared, &it.sql))));
+    variants.push(("prune-off", watched_parse(shared, it, "prune-off")));
     verif_switches::set(true, true);
-    variants.push(("both-off", outcome(&parse_with(shared, &it.sql))));
+    variants.push(("both-off", watched_parse(shared, it, "both-off")));
     verif_switches::set(false, false);
-    variants.push(("repeat", outcome(&parse_with(shared, &it.sql))));
+    variants.push(("repeat", watched_parse(shared, it, "repeat")));
     let fresh = dialect_of(&it.dialect);
-    variants.push(("fresh-dialect", outcome(&parse_with(&fresh, &it.sql))));
+    variants.push(("fresh-dialect", watched_parse(&fresh, it, "fresh-dialect")));
     let nontrivial = base.starts_with("tree:") && it.sql.split_whitespace().count() >= 4;
     if nontrivial {
         buf.count("nontrivial_inputs", 1);
@@ -291,7 +330,9 @@ fn record_item(sh: &Shared, it: &Item, per_parse: usize, buf: &mut Buf) {
     for (co, po) in [(false, false), (true, true), (false, true)] {
         verif_switches::set(co, po);
         verif_switches::rec_start(4000);
+        watch_set(json!({"dialect": it.dialect, "sql": it.sql, "name": it.name, "variant": "recording"}));
         let _ = parse_with(shared, &it.sql);
+        watch_clear();
         let frames = verif_switches::rec_take();
         verif_switches::set(false, false);
         buf.count("lm_calls_recorded", frames.len());
@@ -502,6 +543,7 @@ pub fn main(args: &Args) {
         return;
     }
     static_keys(&mut out, &gen_dir);
+    watchdog(args.out.clone(), if args.thorough() { 600 } else { 240 });
 
     let items = gen_items(args);
     par_run(&mut out, &items, || (), |_, it, buf| run_item(&sh, it, buf));
